@@ -26,14 +26,31 @@ NEEDS = {
  "C20": ("C20", "HTTP/2 host selection loses the Host-header fallback", "HTTP/2 request without URI authority but with a Host header"),
 }
 
+NEEDS_B = {
+ "C01": ("C01 (same change as c13's)", "origin_form compares only the path component with '/'", "HTTP/1.1 connection, request target '/' with a query"),
+ "C02": ("C02", "Pooled::drop pushes an open connection straight to a live waiter, skipping the wait for readiness", "a connection type whose is_open() stays true while busy; a request already waiting when the holder releases"),
+ "C03": ("C03 (same change as c19's)", "Checkout::as_delayed does not transfer ownership of the in-flight marker", "H2 owner cancelled while dialling (continue_after_preemption=true), background dial fails"),
+ "C04": ("C04", "shareable connection re-pushed at first poll instead of at checkout (partial revert of the D4 repair)", "second HTTP/2 request issued between another's issue and first poll; or cancelling an unpolled HTTP/2 request"),
+ "C05": ("C05", "is_open check moved from the hand-back callers into push, after the waiter walk", "exclusive connection closed by the peer before hand-back while another request for the origin is dialling"),
+ "C07": ("C07", "GracefulShutdown::poll checks the signal once per wake-up after draining the acceptor", "a connection request already queued at the acceptor in the poll in which the signal is seen resolved"),
+ "C09": ("C09", "DuplexIncoming::poll_accept returns Pending (no waker) when the acknowledgement to a departed client fails", "duplex connect future polled once, then dropped before the server pops its request"),
+ "C14": ("C14", "delayed (background) checkout inherits the dropped checkout's live waiter", "continue_after_preemption=true, request cancelled while dialling, another connection for the origin released afterwards: delivered to the background checkout, whose dial is then dropped"),
+ "C15": ("C15", "PinnedDrop hands an undelivered connection back through an unbounded `restore`", "idle list full, a request takes an idle connection and is cancelled unpolled after another release refilled the list"),
+ "C18": ("C18", "TokioIo::poll_write_vectored falls back to per-slice poll_write and keeps going after a short write", "vectored write with >=2 slices on a non-vectored inner writer that accepts only part of a slice that is not the last"),
+}
+
+import sys
+ROUND = sys.argv[1] if len(sys.argv) > 1 else ""
+if ROUND == "b":
+    NEEDS = NEEDS_B
 confirm = {}
-for f in glob.glob('/tmp/seed/confirm_*.log') + glob.glob('/tmp/seed/confirm_single_*.log'):
+for f in (glob.glob('/tmp/seed/r2_confirm*.log') if ROUND == 'b' else glob.glob('/tmp/seed/confirm_*.log') + glob.glob('/tmp/seed/confirm_single_*.log')):
     for l in open(f):
         m = re.match(r'CONFIRM (C\d+): suite (with|without) change \(incl\. demo\): (.*)', l)
         if m:
             confirm.setdefault(m.group(1), {})[m.group(2)] = m.group(3).strip()
 evals = {}
-for f in sorted(glob.glob('/tmp/seed/eval_*.log')):
+for f in (sorted(glob.glob('/tmp/seed/r2_eval*.log')) if ROUND == 'b' else sorted(glob.glob('/tmp/seed/eval_*.log'))):
     for l in open(f):
         m = re.match(r'(C\d+)\.out/patch\.diff: caught by:(.*)\| machinery:(.*)\| silent:(.*)', l)
         if m:
@@ -44,7 +61,7 @@ for sid, (prop, change, needs) in sorted(NEEDS.items()):
     out = f'/tmp/seed/{sid}.out'
     if not os.path.exists(f'{out}/patch.diff'):
         continue
-    dst = f'/verif/seeded/{sid.lower()}'
+    dst = f'/verif/seeded/{sid.lower()}{ROUND}'
     os.makedirs(dst + '/demo', exist_ok=True)
     shutil.copy(f'{out}/patch.diff', dst + '/patch.diff')
     for d in glob.glob(f'{out}/demo/*'):
@@ -53,7 +70,7 @@ for sid, (prop, change, needs) in sorted(NEEDS.items()):
         shutil.copy(f'{out}/README.md', dst + '/AGENT_README.md')
     extra = json.load(open(dst + '/confirm_extra.json')) if os.path.exists(dst + '/confirm_extra.json') else {}
     meta = {
-        "seed": sid.lower(),
+        "seed": sid.lower() + ROUND,
         "breaks_property": prop,
         "change": change,
         "needs_to_manifest": needs,
@@ -65,14 +82,20 @@ for sid, (prop, change, needs) in sorted(NEEDS.items()):
             **extra,
         },
         "quick_checks_against_it": {
-            "command": f"tools/eval_seed.sh seeded/{sid.lower()}/patch.diff  (git apply to /repo, every quick check, git checkout)",
+            "command": f"tools/eval_seed.sh seeded/{sid.lower()}{ROUND}/patch.diff  (git apply to /repo, every quick check, git checkout)",
             "caught_by": evals.get(sid, {}).get('caught'),
             "machinery_errors": evals.get(sid, {}).get('machinery'),
         },
     }
     json.dump(meta, open(dst + '/meta.json', 'w'), indent=1)
-    rows.append((sid, prop, change, needs, evals.get(sid, {}).get('caught')))
+    rows.append((sid + ROUND.upper(), prop, change, needs, evals.get(sid, {}).get('caught')))
 
+if ROUND:
+    with open('/verif/seeded/README.md', 'a') as f:
+        f.write("\nRound 2 (sub-agents were told which kind of defect already existed for the property and asked for a different one):\n\n| seed | aimed at | change | needs | caught by (quick tier) |\n|---|---|---|---|---|\n")
+        for sid, prop, change, needs, caught in rows:
+            f.write(f"| {sid.lower()} | {prop} | {change} | {needs} | {' '.join(caught) if caught else '—'} |\n")
+    print("kept", len(rows)); sys.exit(0)
 with open('/verif/seeded/README.md', 'w') as f:
     f.write("# Seeded changes\n\nEach directory holds a property-breaking change written by an independent sub-agent (patch.diff), its demonstration (demo/), the agent's own write-up (AGENT_README.md) and meta.json (what it needs to manifest, how it was confirmed, which quick checks catch it). None of these is ever committed to /repo; `tools/eval_seed.sh` applies one, runs the checks and undoes it.\n\n| seed | aimed at | change | needs | caught by (quick tier) |\n|---|---|---|---|---|\n")
     for sid, prop, change, needs, caught in rows:
